@@ -7,7 +7,9 @@ ALL ordered pairs (instance i, bound-or-divisor b) of the number universe N
                orders) and with exclusive* false; minimum+maximum on one bound;
                divisibleBy (3) / multipleOf (4)
   drafts 6/7   minimum, maximum, exclusiveMinimum, exclusiveMaximum,
-               minimum+maximum, exclusiveMinimum+exclusiveMaximum, multipleOf
+               minimum+maximum, exclusiveMinimum+exclusiveMaximum, minimum+exclusiveMinimum
+               and maximum+exclusiveMaximum on one value (both orders, both number types),
+               multipleOf
 
 Every schema goes through the real check_schema first (divisors <= 0 are
 refused there).  Observation: list(iter_errors(i)) -> set of failing keywords,
@@ -39,6 +41,17 @@ def get_N(tier):
     return _N[tier]
 
 
+def other_type(b):
+    """The same mathematical value as the other JSON number type where that is exact, else b itself."""
+    if isinstance(b, int):
+        try:
+            f = float(b)
+        except OverflowError:
+            return b
+        return f if num.Fraction(f) == b else b
+    return int(b) if b == int(b) else b
+
+
 def forms(d):
     """[(form name, builder b -> schema)] in a fixed order."""
     out = []
@@ -54,6 +67,13 @@ def forms(d):
             out.append((k, lambda b, k=k: {k: b}))
         out.append(("minimum+maximum", lambda b: {"minimum": b, "maximum": b}))
         out.append(("exclusiveMinimum+exclusiveMaximum", lambda b: {"exclusiveMinimum": b, "exclusiveMaximum": b}))
+        # an inclusive and an exclusive bound side by side (numeric keywords in drafts 6/7: each decides alone),
+        # on the same value, in both key orders, and with the value written as the other number type
+        for lo, ex in (("minimum", "exclusiveMinimum"), ("maximum", "exclusiveMaximum")):
+            out.append((lo + "+" + ex, lambda b, lo=lo, ex=ex: {lo: b, ex: b}))
+            out.append((ex + "+" + lo, lambda b, lo=lo, ex=ex: {ex: b, lo: b}))
+            out.append((lo + "+" + ex + ":other-type", lambda b, lo=lo, ex=ex: {lo: b, ex: other_type(b)}))
+            out.append((lo + ":other-type+" + ex, lambda b, lo=lo, ex=ex: {lo: other_type(b), ex: b}))
     m = num.MULT[d]
     out.append((m, lambda b, m=m: {m: b}))
     return out
